@@ -26,10 +26,7 @@ def tlc_generate(work, module, seed, env, timeout=600):
 
 
 def replay(work, vh, cases, tag="t", budget="1s", maxout=400):
-    cpath, tpath = work.path(tag + ".cases.ndjson"), work.path(tag + ".trace.ndjson")
-    vc.write_ndjson(cpath, cases)
-    vc.sh([vh, "eval", "-in", cpath, "-out", tpath, "-budget", budget, "-maxout", str(maxout), "-j", str(vc.NCPU)], timeout=3600)
-    return vc.read_ndjson(tpath)
+    return vc.run_restartable([vh, "eval", "-budget", budget, "-maxout", str(maxout), "-j", str(vc.NCPU)], cases, work, tag)
 
 
 def show(v):
@@ -68,7 +65,11 @@ def check_cases(report, work, vh, prelude, cases, predicates=None, family="eval"
 
     good = []
     for rec in recs:
-        if "panic" in rec and "runs" not in rec:
+        if rec.get("hang"):
+            report.violation("a run of %r does not return and does not react to its cancelled context" % rec["src"],
+                             {"family": family, "case": {"src": rec["src"], "input": rec.get("input", {"t": "null"})}, "actual": {"hang": True}})
+            bump("hang")
+        elif "panic" in rec and "runs" not in rec:
             report.violation("panic in Parse/Compile of %r: %s" % (rec["src"], rec["panic"]),
                              {"family": family, "case": {"src": rec["src"]}, "actual": {"panic": rec["panic"]}})
             bump("panic")
